@@ -1,5 +1,9 @@
 //@subst G1 /\.map\(\|k\| (\(k\.key_id\(\), k\))\)/ => .map(|k: &'a PublicKey| -> (r: (&'a KeyId, &'a PublicKey)) ensures *r.0 == k.kid(), r.1 == k { \1 })
 //@subst G1 /\.map\(\|sig\| (\(sig\.key_id\(\), sig\))\)/ => .map(|sig: &Signature| -> (r: (&KeyId, &Signature)) ensures *r.0 == sig.kid(), r.1 == sig { \1 })
+//@subst D24 /let signatures = self/ => let signatures_it = self
+//@subst D24 /\.collect::<HashMap<&KeyId, &Signature>>\(\);/ => ; let ghost s_sig = vstd::std_specs::iter::IteratorSpec::remaining(&signatures_it); let signatures = signatures_it.collect::<HashMap<&KeyId, &Signature>>();
+//@subst D24 /let authorized_keys = authorized_keys/ => let authorized_it = authorized_keys
+//@subst D24 /\.collect::<HashMap<&KeyId, &PublicKey>>\(\);/ => ; let ghost s_auth = vstd::std_specs::iter::IteratorSpec::remaining(&authorized_it); let authorized_keys = authorized_it.collect::<HashMap<&KeyId, &PublicKey>>();
 //@contract ret=r
     ensures
 //@include contracts/metablock_verify.rs KEYS=$KEYS
@@ -9,6 +13,9 @@
 //@before /let raw = self\.metadata\.to_bytes\(\)\?;/
         let ghost authmap = authorized_keys@;
         assert(forall|id: &KeyId| #[trigger] authmap.contains_key(id) ==> exists|i: int| 0 <= i < keys0.len() && (#[trigger] keys0[i]).kid() == *id && authmap[id] == keys0[i]);
+        assert forall|i: int| 0 <= i < keys0.len() implies authmap.contains_key(&(#[trigger] keys0[i]).kid()) by {
+            assert(authmap.contains_key(s_auth[i].0));
+        }
 //@after /let raw = self\.metadata\.to_bytes\(\)\?;/
         let ghost raw0 = raw@;
 //@after /\.replace\("\\\\n", "\\n"\);/
@@ -17,6 +24,9 @@
 //@before /check the signatures, if is signed by an authorized key/
         let ghost sigmap = signatures@;
         assert(forall|id: &KeyId| #[trigger] sigmap.contains_key(id) ==> exists|j: int| 0 <= j < self.signatures@.len() && (#[trigger] self.signatures@[j]).kid() == *id && *sigmap[id] == self.signatures@[j]);
+        assert forall|j: int| 0 <= j < self.signatures@.len() implies sigmap.contains_key(&(#[trigger] self.signatures@[j]).kid()) by {
+            assert(sigmap.contains_key(s_sig[j].0));
+        }
         let ghost mut counted: Set<KeyId> = Set::empty();
 //@loop 1 iter=it
             invariant_except_break
@@ -34,6 +44,10 @@
                 forall|id: &KeyId| #[trigger] authmap.contains_key(id) ==> exists|i: int| 0 <= i < keys0.len() && (#[trigger] keys0[i]).kid() == *id && authmap[id] == keys0[i],
                 authmap == authorized_keys@,
                 vstd::std_specs::hash::obeys_key_model::<&KeyId>(),
+                forall|id: &KeyId| sigmap.contains_key(id) ==> exists|i: int| 0 <= i < it.seq().len() && (#[trigger] it.seq()[i]).0 == id,
+                forall|i: int| 0 <= i < it.index() ==> (authmap.contains_key((#[trigger] it.seq()[i]).0) && authmap[it.seq()[i].0].sig_ok(vstd::utf8::encode_utf8(metadata@), *it.seq()[i].1)) ==> counted.contains(*it.seq()[i].0),
+            ensures
+                signatures_needed > 0 ==> forall|id: &KeyId| (#[trigger] sigmap.contains_key(id) && authmap.contains_key(id) && authmap[id].sig_ok(vstd::utf8::encode_utf8(metadata@), *sigmap[id])) ==> counted.contains(*id),
 //@before /signatures_needed -= 1;/
                         proof {
                             assert(sigmap.contains_key(key_id) && sigmap[key_id] == sig);
@@ -48,3 +62,27 @@
                             assert(!counted.contains(*key_id));
                             counted = counted.insert(*key_id);
                         }
+//@before /return Err\(Error::VerificationFailure\(format!\(/
+            assert(!(sig_ids_distinct(self.signatures@) && key_ids_distinct(keys0)
+                    && exists|good: Set<KeyId>| good.len() >= threshold && forall|id: KeyId| good.contains(id) ==> counted_ok(*self, keys0, id))) by {
+                if sig_ids_distinct(self.signatures@) && key_ids_distinct(keys0)
+                    && exists|good: Set<KeyId>| good.len() >= threshold && forall|id: KeyId| good.contains(id) ==> counted_ok(*self, keys0, id) {
+                    let good = choose|good: Set<KeyId>| good.len() >= threshold && forall|id: KeyId| good.contains(id) ==> counted_ok(*self, keys0, id);
+                    let msg = vstd::utf8::encode_utf8(metadata@);
+                    assert forall|id: KeyId| good.contains(id) implies counted.contains(id) by {
+                        assert(counted_ok(*self, keys0, id));
+                        let (i, j) = choose|i: int, j: int| 0 <= i < keys0.len() && 0 <= j < self.signatures@.len()
+                            && (#[trigger] keys0[i]).kid() == id && (#[trigger] self.signatures@[j]).kid() == id
+                            && keys0[i].sig_ok(signed_msg(self.metadata)->0, self.signatures@[j]);
+                        assert(sigmap.contains_key(&id));
+                        assert(authmap.contains_key(&id));
+                        let j2 = choose|j2: int| 0 <= j2 < self.signatures@.len() && (#[trigger] self.signatures@[j2]).kid() == id && *sigmap[&id] == self.signatures@[j2];
+                        assert(j2 == j);
+                        let i2 = choose|i2: int| 0 <= i2 < keys0.len() && (#[trigger] keys0[i2]).kid() == id && authmap[&id] == keys0[i2];
+                        assert(i2 == i);
+                        assert(authmap[&id].sig_ok(msg, *sigmap[&id]));
+                    }
+                    vstd::set_lib::lemma_len_subset(good, counted);
+                    assert(false);
+                }
+            }
